@@ -177,13 +177,13 @@ theorem hh_selfTimeout {c : Cfg} {sc : Script} {d now : Nat} {h : Host} (hh : HH
       rcases hb with hz | hle <;> omega
   simp only [Host.selfTimeout, hno, if_false]; exact hh
 
-theorem dstep_fan_none_guard {s : St} {l : Fan.Label} {f' : Fan.St} (hf : Fan.step s.fan l = some f')
+theorem dstep_fan_none_guard {s : St} {l : FanG.Label} {f' : FanG.St} (hf : FanG.step s.fan l = some f')
     (hn : dstep s (.fan l) = none) : fanGuard s l = false := by
   cases hg : fanGuard s l with
   | false => rfl
   | true => have := dstep_fan_some hf hg; rw [hn] at this; cases this
 
-theorem fanLocal_cases {fl : Fan.Label} {k : Nat} {lo : Local} (h : fanLocal fl = some (k, lo)) :
+theorem fanLocal_cases {fl : FanG.Label} {k : Nat} {lo : Local} (h : fanLocal fl = some (k, lo)) :
     lo = .create ∨ lo = .connBegin ∨ lo = .connEnd ∨ lo = .destEnd := by
   cases fl with
   | d a => cases a <;> simp [fanLocal] at h; exact Or.inl h.2.symm
